@@ -440,8 +440,21 @@ CHARS = list("#@$\\`~^?:\"'(){}[];,.!=<>&|+-*/%_ e0x9\n\t") + ["é", "×", "·",
 def mutate_chars(text, rng):
     if not text:
         return rng.choice(CHARS), "insert-char into empty"
-    kind = rng.weighted([("delete", 3), ("insert", 3), ("replace", 2), ("swap", 1), ("truncate", 2)])
+    kind = rng.weighted([("delete", 3), ("insert", 3), ("replace", 2), ("swap", 1), ("truncate", 2), ("quote", 2)])
     i = rng.below(len(text))
+    if kind == "quote":
+        # a quote character doubled, or a whole string literal written twice with nothing in between: the lexer reads
+        # `"ab""cd"` as ONE string token whose body contains its own quote
+        import re as _re
+        lits = [m for m in _re.finditer(r'"(?:[^"\\\n]|\\.)*"|\'(?:[^\'\\\n]|\\.)*\'', text)]
+        if lits:
+            m = rng.choice(lits)
+            if rng.chance(0.5):
+                return text[:m.end()] + m.group(0) + text[m.end():], "string-literal-twice[%d]" % m.start()
+            j = rng.range(m.start(), m.end() - 1)
+            q = m.group(0)[0]
+            return text[:j] + q + text[j:], "quote-inserted[%d]" % j
+        kind = "insert"
     if kind == "delete":
         return text[:i] + text[i + 1:], "delete-char[%d]=%r" % (i, text[i])
     if kind == "insert":
@@ -590,6 +603,48 @@ def prec_scenario(rng, sid):
     for _ in range(2):
         st = [["F", fact(I=rng.range(-3, 9), J=rng.range(-2, 5), I32=rng.range(-5, 5), U8=rng.range(0, 9), In=rng.range(-4, 4),
                          B=rng.chance(0.5), C=rng.chance(0.5))]]
+        ops.append({"op": "exec", "inst": "i", "facts": st, "max": 6, "retErr": False, "cancelAt": None, "listeners": 0})
+    return {"id": sid, "profile": "stable", "ops": ops, "syntax": True}
+
+
+def builtin_scenario(rng, sid):
+    """the string built-ins on every kind of receiver (Go field, nested field, map value, top-level fact, JSON member by
+    field and by selector, constant, call result), with needles that occur zero, one or several times: one rule per call
+    storing the result, so that real engine, model and from-scratch semantics are compared on the value itself"""
+    from grl import Printer
+    recvs = [var(path("F.S")), var(path("F.T")), var(path("F.V.S")), var(idx(path("F.MS"), atom(cstr("a")))), var(root("TS")),
+             var(path("J.s")), var(idx(root("J"), atom(cstr("s")))), cstr(rng.choice(["abcabc", "a/b/a", " x "])),
+             meth(var(root("F")), "Str", atom(cstr(rng.choice(["ab", "a!a"]))))]
+    needles = ["", "a", "b", "ab", "/", "s", "js", " ", "!", "zz"]
+    rules = []
+    for i in range(rng.range(2, 4)):
+        recv = rng.choice(recvs)
+        k = rng.weighted([("int", 5), ("str", 3), ("bool", 2)])
+        if k == "int":
+            f = rng.choice(["Count", "Index", "LastIndex", "LastIndex", "Len"])
+            e = atom(meth(recv, f)) if f == "Len" else atom(meth(recv, f, atom(cstr(rng.choice(needles)))))
+            tgt = path(rng.choice(["F.I", "F.J", "F.In"]))
+        elif k == "str":
+            f = rng.choice(["Replace", "Trim", "ToUpper", "ToLower", "Repeat"])
+            if f == "Replace":
+                e = atom(meth(recv, f, atom(cstr(rng.choice(needles[1:]))), atom(cstr(rng.choice(["", "X", "aa"])))))
+            elif f == "Repeat":
+                e = atom(meth(recv, f, atom(cint(rng.range(0, 3)))))
+            else:
+                e = atom(meth(recv, f))
+            tgt = path(rng.choice(["F.P.S", "F.AS[0]"])) if False else path("F.P.S")
+        else:
+            f = rng.choice(["Contains", "HasPrefix", "HasSuffix", "In"])
+            e = atom(meth(recv, f, atom(cstr(rng.choice(needles)))))
+            tgt = path(rng.choice(["F.B", "F.C"]))
+        name = "B%d" % i
+        rules.append(mkrule(name, atom(cbool(True)), [["as", "=", tgt, e], ["st", ["call", "Retract", [atom(cstr(name))]]]], sal=i))
+    pr = Printer()
+    ops = [build_op(pr.doc(rules), rules, expect_ok=True), {"op": "inst", "lib": "L", "kb": "K", "as": "i"}]
+    for _ in range(2):
+        sv = lambda: rng.choice(["", "a", "abab", "a/b/a", "js js", " s ", "b!b"])
+        st = [["F", fact(S=sv(), T=sv(), V=sub(N=1, S=sv()), P=sub(N=1, S="p"), MS={"a": sv(), "b": ""})],
+              ["TS", leaf("string", sv())], ["J", jtree({"s": sv(), "n": 1})]]
         ops.append({"op": "exec", "inst": "i", "facts": st, "max": 6, "retErr": False, "cancelAt": None, "listeners": 0})
     return {"id": sid, "profile": "stable", "ops": ops, "syntax": True}
 
